@@ -64,10 +64,14 @@ pub fn cases(args: &[String]) {
         case_begin(index);
         index += 1;
         let r = guarded(std::panic::AssertUnwindSafe(move || match t[0].as_str() {
-            "rt" => {
+            "rt" | "rtc" => {
                 let level: u32 = t[1].parse().unwrap();
-                let d = unhex(&t[2]);
-                let sfx = unhex(&t[3]);
+                // rtc LEVEL BYTE LEN SUFFIX: LEN copies of one byte (large, extremely compressible blocks)
+                let (d, sfx) = if t[0] == "rtc" {
+                    (vec![t[2].parse::<u8>().unwrap(); t[3].parse::<usize>().unwrap()], unhex(&t[4]))
+                } else {
+                    (unhex(&t[2]), unhex(&t[3]))
+                };
                 let v = frame(level, &d);
                 let mut bm = BytesMut::new();
                 bm.write_compressed(&d, Compression::new(level)).unwrap();
